@@ -46,16 +46,22 @@ def varCode : Var → Nat
   | .objectiveBest => 1
   | .mv k m => 2 + 25 * m + vkCode k
 
-/-- merge neighbours that carry the same variable -/
-def mergeAdj : List (Var × α) → List (Var × α)
-  | [] => []
-  | [p] => [p]
-  | p :: q :: t => if p.1 = q.1 then mergeAdj ((p.1, p.2 + q.2) :: t) else p :: mergeAdj (q :: t)
-termination_by l => l.length
+/-- insert a term into a list kept sorted by variable code, adding the coefficient to the term
+    that already carries the same variable (structural recursion, so that the kernel can evaluate
+    the checker on small instances: `List.mergeSort` is defined by well-founded recursion and
+    does not reduce under `decide +kernel`) -/
+def insertTerm (v : Var) (c : α) : List (Var × α) → List (Var × α)
+  | [] => [(v, c)]
+  | (w, d) :: t =>
+    if v = w then (w, d + c) :: t
+    else if varCode v ≤ varCode w then (v, c) :: (w, d) :: t
+    else (w, d) :: insertTerm v c t
 
-/-- sort by variable code and merge: a normal form with the same value at every point -/
+/-- sort by variable code and merge equal variables: a normal form with the same value at every
+    point (at most one term per variable, since `varCode` is injective on the variables of a month
+    grid) -/
 def normalise (l : List (Var × α)) : List (Var × α) :=
-  mergeAdj (l.mergeSort (fun a b => decide (varCode a.1 ≤ varCode b.1)))
+  l.foldl (fun acc p => insertTerm p.1 p.2 acc) []
 
 /-- `Σ_j max(0, r_j) · U_j` over the residual terms; `none` if a positive residual sits on a
     variable without a known upper bound -/
@@ -85,47 +91,105 @@ def dualBound (rows : List (Row α)) (y : List α) (ub : Var → Option α) : Op
 /-- total of a supply series over the horizon -/
 def total (l : List α) (n : Nat) : α := (List.range n).foldl (fun acc m => acc + at' l m) 0
 
-/-- a simple bound valid for every feasible point of `buildLP i kind` under `WellFormed i`
-    (`Props/C02.lean: ubOf_valid`); `none` where no bound is proved:
+/-- what can be harvested from the seaweed farm in month `m ≥ 1` at most (wet tonnes): last
+    month's biomass at the density ceiling, grown, plus the loss term of a shrinking farm.
+    From the ledger `wet m = wet(m−1)·(1+g) − humans/(1−w) − feed − biofuel − (area m − area(m−1))·minD·hl`
+    with `wet m ≥ 0`, `area m ≥ 0`, `wet(m−1) ≤ maxD·built(m−1)`, `area(m−1) ≤ built(m−1)`. -/
+def swCap (i : Inp α) (m : Nat) : α :=
+  i.maxDensity * at' i.builtArea (m - 1) * (1 + at' i.growth m / 100.0)
+    + at' i.builtArea (m - 1) * i.minDensity * (i.harvestLoss / 100.0)
+
+/-- bound of the monthly variable `k` of month `m < nmonths`, valid at every feasible point of
+    `buildLP i kind` (either kind) under `WellFormed i`; `none` where no bound is proved:
     * variables of a resource that is switched off (they occur in no row, only `0 ≤ x v` holds);
-    * months outside the horizon;
     * stored-food stock variables with no `Stored_Food_Eaten` row behind them (without storage
       between years: `Stored_Food_End_m` for `m > 12`, `Stored_Food_Start_m` for `m > 13`);
-    * meat stock variables without storage between years; seaweed harvest after month 0;
-      `Humans_Fed_Kcals`; the objective variables.
-    The bound does not depend on the kind of round. -/
-def ubOf (i : Inp α) (_kind : Kind) : Var → Option α
+    * meat stock variables without storage between years;
+    * `Humans_Fed_Kcals` (it exists only in human-maximising rounds: see `consumedCap`). -/
+def capOf (i : Inp α) (k : VK) (m : Nat) : Option α :=
+  match k with
+  | .sfStart =>
+    if i.addStored && (i.storeBetweenYears || decide (m ≤ 13)) then some i.storedInitial else none
+  | .sfEnd =>
+    if i.addStored && (i.storeBetweenYears || decide (m ≤ 12)) then some i.storedInitial else none
+  | .sfHumans | .sfFeed | .sfBiofuel =>
+    if !i.addStored then none
+    else if i.storeBetweenYears || decide (m ≤ 12) then some i.storedInitial else some 0
+  | .cropStorage | .cropConsumed | .cropFeed | .cropBiofuel | .cropHumans =>
+    if i.addOutdoor then some (total i.cropProd (m + 1)) else none
+  | .meatStart | .meatEnd => if i.addMeat && i.storeBetweenYears then some i.meatSummed else none
+  | .meatEaten =>
+    if !i.addMeat then none
+    else if i.storeBetweenYears then some i.meatSummed else some (at' i.slaughtered m)
+  | .scpHumans | .scpFeed | .scpBiofuel => if i.addScp then some (at' i.scp m) else none
+  | .csHumans | .csFeed | .csBiofuel => if i.addCs then some (at' i.cs m) else none
+  | .swWet => if i.addSeaweed then some (i.maxDensity * at' i.builtArea m) else none
+  | .usedArea => if i.addSeaweed then some (at' i.builtArea m) else none
+  | .swHumans | .swFeed | .swBiofuel =>
+    if !i.addSeaweed then none else if m = 0 then some 0 else some (swCap i m)
+  | .consumedKcals => none
+
+/-- bound of what `humanSum` reads for a resource: the variable's bound if the resource is on,
+    the literal `0` of `varIf` otherwise -/
+def capH (i : Inp α) (on : Bool) (k : VK) (m : Nat) : Option α := if on then capOf i k m else some 0
+
+/-- bound of `Humans_Fed_Kcals_m` in a human-maximising round (`Kcals_Fed_Month_m`: the variable
+    equals `humanSum / billion_kcals_needed · 100`): the bounds of the human variables, plus milk,
+    greenhouse and fish; needs a positive requirement; `none` if a needed bound is missing -/
+def consumedCap (i : Inp α) (m : Nat) : Option α :=
+  if 0 < i.billionKcalsNeeded then
+    match capH i i.addStored .sfHumans m, capH i i.addOutdoor .cropHumans m,
+          capH i i.addSeaweed .swHumans m, capH i i.addMeat .meatEaten m,
+          capH i i.addCs .csHumans m, capH i i.addScp .scpHumans m with
+    | some a, some b, some c, some d, some e, some f =>
+      some ((a + b + c * i.seaweedKcals + at' i.milk m + d + e + f + at' i.greenhouse m + at' i.fish m)
+              / i.billionKcalsNeeded * 100.0)
+    | _, _, _, _, _, _ => none
+  else none
+
+/-- upper bound of a variable, valid at every feasible point of `buildLP i kind` under
+    `WellFormed i` (`Props/C02.lean: ubOf_valid`); `none` where no bound is proved (see `capOf`;
+    months outside the horizon; `TO_HUMANS_OBJECTIVE`).
+    `Objective_To_Optimize`: a human-maximising round has `objective ≤ Humans_Fed_Kcals_0`; the
+    feed-maximising round has `objective ≤ 2/3·Σ feed + Σ biofuel / 3` with every month's feed and
+    biofuel under its ceiling (all sums are the float `0` when no resource contributes a variable). -/
+def ubOf (i : Inp α) (kind : Kind) : Var → Option α
   | .objectiveBest => none
-  | .objective => none      -- bounded through the objective rows (multipliers take care of it)
+  | .objective =>
+    (match kind with
+     | .toHumans => if 0 < i.nmonths then consumedCap i 0 else none
+     | .toAnimals =>
+       if anyFeedVar i then
+         some (2.0 / 3.0 * total i.maxFeed i.nmonths + total i.maxBiofuel i.nmonths / 3.0)
+       else some 0)
   | .mv k m =>
     if i.nmonths ≤ m then none else
     match k with
-    | .sfStart =>
-      if i.addStored && (i.storeBetweenYears || decide (m ≤ 13)) then some i.storedInitial else none
-    | .sfEnd =>
-      if i.addStored && (i.storeBetweenYears || decide (m ≤ 12)) then some i.storedInitial else none
-    | .sfHumans | .sfFeed | .sfBiofuel =>
-      if !i.addStored then none
-      else if i.storeBetweenYears || decide (m ≤ 12) then some i.storedInitial else some 0
-    | .cropStorage | .cropConsumed | .cropFeed | .cropBiofuel | .cropHumans =>
-      if i.addOutdoor then some (total i.cropProd (m + 1)) else none
-    | .meatStart | .meatEnd => if i.addMeat && i.storeBetweenYears then some i.meatSummed else none
-    | .meatEaten =>
-      if !i.addMeat then none
-      else if i.storeBetweenYears then some i.meatSummed else some (at' i.slaughtered m)
-    | .scpHumans | .scpFeed | .scpBiofuel => if i.addScp then some (at' i.scp m) else none
-    | .csHumans | .csFeed | .csBiofuel => if i.addCs then some (at' i.cs m) else none
-    | .swWet => if i.addSeaweed then some (i.maxDensity * at' i.builtArea m) else none
-    | .usedArea => if i.addSeaweed then some (at' i.builtArea m) else none
-    | .swHumans | .swFeed | .swBiofuel => if i.addSeaweed && decide (m = 0) then some 0 else none
-    | .consumedKcals => none
+    | .consumedKcals =>
+      (match kind with
+       | .toHumans => consumedCap i m
+       | .toAnimals => none)      -- the variable occurs in no row of a feed-maximising round
+    | k => capOf i k m
 
 /-- what `ubOf` needs of the inputs: wastes in `[0, 100)` (so that people never receive more than
-    is drawn), supplies and stocks non-negative -/
+    is drawn), crops and stock non-negative, and for the seaweed bounds non-negative minimum
+    density, harvest loss and energy content, growth not below −100 %.
+    Monthly series are constrained on the horizon only. -/
 def WellFormed (i : Inp α) : Prop :=
   (0 ≤ i.wStored ∧ i.wStored < 100.0) ∧ (0 ≤ i.wCrop ∧ i.wCrop < 100.0) ∧ (0 ≤ i.wMeat ∧ i.wMeat < 100.0) ∧
   (0 ≤ i.wScp ∧ i.wScp < 100.0) ∧ (0 ≤ i.wCs ∧ i.wCs < 100.0) ∧ (0 ≤ i.wSeaweed ∧ i.wSeaweed < 100.0) ∧
-  (∀ m, 0 ≤ at' i.cropProd m) ∧ 0 ≤ i.storedInitial
+  (∀ m, m < i.nmonths → 0 ≤ at' i.cropProd m) ∧ 0 ≤ i.storedInitial ∧
+  0 ≤ i.minDensity ∧ 0 ≤ i.harvestLoss ∧ 0 ≤ i.seaweedKcals ∧
+  (∀ m, m < i.nmonths → -100.0 ≤ at' i.growth m)
+
+/-- `WellFormed` as a Boolean (`Proofs/Certificate.lean: wellFormedB_iff`); the driver evaluates it
+    on the exact rational values of the inputs -/
+def wellFormedB (i : Inp α) : Bool :=
+  let w (x : α) : Bool := decide (0 ≤ x) && decide (x < 100.0)
+  w i.wStored && w i.wCrop && w i.wMeat && w i.wScp && w i.wCs && w i.wSeaweed &&
+  ((List.range i.nmonths).all fun m => decide (0 ≤ at' i.cropProd m)) && decide (0 ≤ i.storedInitial) &&
+  decide (0 ≤ i.minDensity) && decide (0 ≤ i.harvestLoss) && decide (0 ≤ i.seaweedKcals) &&
+  ((List.range i.nmonths).all fun m => decide (-100.0 ≤ at' i.growth m))
 
 end
 end Allfed.Certificate
